@@ -326,3 +326,71 @@ Proof.
     + unfold has_key. rewrite Go. simpl.
       unfold has_default. rewrite (default_of_In t f ND Hi), Hf. simpl. auto.
 Qed.
+
+(** ** The dataclass codec in one statement: encode by popping the optional
+    keys that [==] their default, decode by the field loop and the
+    constructor.  Holds for every table with unique field names, every list
+    of optional keys and every instance (all field values arbitrary). *)
+Definition norm_attrs (t : table) (opt : list string) (a : kvs) : kvs :=
+  map (fun kv => (fst kv,
+                  if mem_s (fst kv) opt && elided t a (fst kv)
+                  then match default_of t (fst kv) with Some d => d | None => snd kv end
+                  else snd kv)) a.
+
+Theorem dataclass_roundtrip : forall strict cls t opt a e,
+  nodup_s (names t) = true ->
+  keys a = names t ->
+  (forall f, In f t -> f_init f = false -> get (f_name f) a = f_default f) ->
+  pop_defaults strict t opt a = Some e ->
+  exists ps,
+    field_loop t t [] e (fun _ v => Some v) = Some ps
+    /\ construct cls t ps
+       = Some (PDict (("__class__", PStr cls) :: norm_attrs t opt a)).
+Proof.
+  intros strict cls t opt a e Hnd Hk Hni Hpop.
+  pose proof (nodup_s_NoDup _ Hnd) as ND.
+  destruct (decode_generic cls t [] e (fun _ v => Some v) [] a
+              (fun k v => if mem_s k opt && elided t a k
+                          then match default_of t k with Some d => d | None => v end
+                          else v)) as [ps [E C]]; auto.
+  - simpl; tauto.
+  - intros f v Hi Gv. simpl.
+    pose proof (get_pop _ _ _ _ _ Hpop (f_name f)) as Ge.
+    destruct (f_init f) eqn:Fi.
+    + rewrite Ge.
+      destruct (mem_s (f_name f) opt && elided t a (f_name f)) eqn:El.
+      * apply andb_true_iff in El as [_ El]. unfold elided in El.
+        rewrite Gv in El. destruct (default_of t (f_name f)) eqn:D; [|discriminate].
+        rewrite <- (default_of_In t f ND Hi). auto.
+      * rewrite Gv. auto.
+    + rewrite <- (Hni f Hi Fi), Gv.
+      destruct (mem_s (f_name f) opt && elided t a (f_name f)) eqn:El; auto.
+      destruct (default_of t (f_name f)) eqn:D; auto.
+      rewrite (default_of_In t f ND Hi), <- (Hni f Hi Fi), Gv in D. congruence.
+  - exists ps. split; auto.
+Qed.
+
+(** every field of the decoded instance is the original value or a value
+    that Python's [==] identifies with it (the class default) *)
+Theorem norm_attrs_equal_fields : forall t opt a,
+  NoDup (keys a) ->
+  Forall2 (fun x y => fst x = fst y
+                      /\ (snd y = snd x \/ pyeq (snd x) (snd y) = true))
+          a (norm_attrs t opt a).
+Proof.
+  intros t opt a ND. unfold norm_attrs.
+  assert (G : forall l, (forall kv, In kv l -> get (fst kv) a = Some (snd kv)) ->
+              Forall2 (fun x y => fst x = fst y /\ (snd y = snd x \/ pyeq (snd x) (snd y) = true))
+                l (map (fun kv => (fst kv,
+                  if mem_s (fst kv) opt && elided t a (fst kv)
+                  then match default_of t (fst kv) with Some d => d | None => snd kv end
+                  else snd kv)) l)).
+  { induction l; simpl; intros; constructor.
+    - split; auto. simpl.
+      destruct (mem_s (fst a0) opt && elided t a (fst a0)) eqn:El; auto.
+      apply andb_true_iff in El as [_ El]. unfold elided in El.
+      rewrite (H a0 (or_introl eq_refl)) in El.
+      destruct (default_of t (fst a0)); auto.
+    - apply IHl. intros; apply H; auto. }
+  apply G. intros. apply get_of_keys_nodup; auto.
+Qed.
